@@ -257,9 +257,23 @@ type printStyle struct {
 
 var wsChars = []string{" ", "\t", "\n", "\r", "  ", " \n"}
 
+// one piece of white space; now and then a run of 24..63 characters (a decoder that
+// looks only at a prefix of the text for the label loses it behind such a run)
+func (p *printStyle) wsPiece() string {
+	if p.r.Chance(5) {
+		n := 24 + p.r.Intn(40)
+		out := make([]byte, n)
+		for i := range out {
+			out[i] = " \t\n\r"[p.r.Intn(4)]
+		}
+		return string(out)
+	}
+	return common.Pick(p.r, wsChars)
+}
+
 func (p *printStyle) gap(b *bytes.Buffer) {
 	if p.r != nil && p.r.Chance(p.ws) {
-		b.WriteString(common.Pick(p.r, wsChars))
+		b.WriteString(p.wsPiece())
 	}
 }
 
@@ -342,14 +356,14 @@ func (p *printStyle) print(j JV) []byte {
 	var b bytes.Buffer
 	if p.lead {
 		if p.r != nil {
-			b.WriteString(common.Pick(p.r, wsChars))
+			b.WriteString(p.wsPiece())
 		} else {
 			b.WriteByte(' ')
 		}
 	}
 	p.value(&b, j, true)
 	if p.r != nil && p.r.Chance(p.ws) {
-		b.WriteString(common.Pick(p.r, wsChars))
+		b.WriteString(p.wsPiece())
 	}
 	return b.Bytes()
 }
